@@ -59,6 +59,15 @@ def choiceOk (kvs : List (Str × Json)) (state : Json) : Bool :=
    | none => true
    | some d => targetOk kvs (some d))
 
+/-- a Retrier / Catcher is an object whose `ErrorEquals` is an array -/
+def eqOk (h : Json) : Bool :=
+  match h.get "ErrorEquals" with
+  | some (.arr _) => true
+  | _ => false
+
+def handlersOk (state : Json) : Bool :=
+  (listOf (fld state "Retry")).all eqOk && (listOf (fld state "Catch")).all eqOk
+
 def hasStr (state : Json) (k : String) : Bool := (fldStr state k).isSome
 
 def waitOk (state : Json) : Bool :=
@@ -79,7 +88,7 @@ def wfState : Nat → List (Str × Json) → Json → Bool
       match fldStr b "StartAt", fld b "States" with
       | some s, some (.obj kvs') => defined kvs' s && kvs'.all (fun kv => wfState d kvs' kv.2)
       | _, _ => false
-    catchOk kvs state &&
+    catchOk kvs state && handlersOk state &&
     (if ty = S "Pass" then leaveOk kvs state
      else if ty = S "Succeed" then true
      else if ty = S "Fail" then true
